@@ -30,7 +30,7 @@ BASES = [
     ("C04", lambda n: n.endswith(".forward") or n == "_synparam_at" or n == "DoubleExponentialCurrent.current_at"),
     ("C05", lambda n: n.endswith(".forward")),
     ("C06", lambda n: n.startswith("_synparam_at")),
-    ("C17", lambda n: True),
+    ("C17", lambda n: n in ("Serial", "Biclique", "RecurrentSerial", "Connection.clear")),  # the component contracts C17 shares from C03 / C04 are already above
 ]
 
 
